@@ -286,7 +286,7 @@ func main() {
 	run.Sample("short", short[:5])
 
 	// (b),(c) generated
-	n := run.N(200000, 20000000)
+	n := run.N(600000, 20000000)
 	routeEvery := run.N(10, 40)
 	rng := run.Rand(17)
 	gen := func(r *rand.Rand) string {
@@ -330,7 +330,7 @@ func main() {
 	}
 
 	// (d) converse
-	nc := run.N(50000, 2000000)
+	nc := run.N(150000, 2000000)
 	rng = run.Rand(18)
 	for i := 0; i < nc; i++ {
 		ref := ociref.Reference{Host: gram.GenHost(rng), Repository: gram.GenRepo(rng)}
